@@ -69,7 +69,7 @@ struct ByteRand : Rand {    // structured decoding of fuzzer bytes; 0 when exhau
 // ---------------------------------------------------------------------------------------
 // values and tables
 // ---------------------------------------------------------------------------------------
-enum : uint8_t { VI = 0, VR = 1, VINF = 2, VUN = 3 };   // int/bool, real, +infinity, unspecified
+enum : uint8_t { VI = 0, VR = 1, VINF = 2, VUN = 3, VNEG = 4 };   // int/bool, real, +infinity, unspecified, "any negative value"
 struct Val {
     uint8_t t; long i; double d;
     double s = 0;       // magnitude of the operands this value was computed from (widens the real tolerance)
@@ -78,6 +78,7 @@ struct Val {
     static Val R(double x) { Val v; v.t = VR; v.d = x; return v; }
     static Val Inf() { Val v; v.t = VINF; return v; }
     static Val Un() { Val v; v.t = VUN; return v; }
+    static Val Neg() { Val v; v.t = VNEG; v.i = -1; return v; }     // "unreachable" of MT-int distances
     bool isInf() const { return t == VINF; }
     bool isUn() const { return t == VUN; }
     double num() const { return t == VR ? d : double(i); }
@@ -231,6 +232,7 @@ struct RunResult {
     Labels labels;
     bool nontrivial = false;
     std::vector<uint64_t> fingerprint;
+    int reachCalls = 0;
 };
 
 // execute a program in a fresh library session
